@@ -192,7 +192,8 @@ def histories(draw):
         i += k
     if draw(st.integers(0, 9)) == 0:
         batches.insert(draw(st.integers(0, len(batches))), [])
-    return {'kind': 'batches', 'n_tasks': n, 'via': via, 'batches': batches}
+    return {'kind': 'batches', 'n_tasks': n, 'via': via, 'batches': batches,
+            'mutating': draw(st.integers(0, 3)) == 0}
 
 
 def pair_cases(tier):
@@ -270,7 +271,7 @@ def _stream_diff(real, model):
 class _Run(object):
     """one hollow task manager with observers, fed batch by batch"""
 
-    def __init__(self, res, n, via):
+    def __init__(self, res, n, via, mutating=False):
         self.res  = res
         self.via  = via
         self.sess = HollowSession()
@@ -316,6 +317,28 @@ class _Run(object):
                 self.tm.register_callback(per_task, uid=u)
             else:
                 self.tasks[u].register_callback(per_task, cb_data={'i': i})
+
+        if mutating:
+            # applications also use callbacks which change the callback tables while they are
+            # being called: a one-shot callback which takes itself off, a callback which registers
+            # a further one.  They observe nothing here - the recording callbacks above must see
+            # exactly what they see without them.
+            tm, u0 = self.tm, self.uids[0]
+
+            def late(task, state):
+                pass
+
+            def oneshot(task, state):
+                tm.unregister_callback(cb=oneshot, uid=u0)
+
+            def registrar(task, state):
+                if not registrar.done:
+                    registrar.done = True
+                    tm.register_callback(late)
+            registrar.done = False
+            tm.register_callback(oneshot, uid=u0)
+            tm.register_callback(registrar)
+            res.label('callbacks_changing_the_callback_tables')
 
     # --------------------------------------------------------------------------
     def _errors(self, n0, raised):
@@ -441,7 +464,7 @@ class _Run(object):
 def _run_batches(res, case):
     n   = max(1, min(8, int(case.get('n_tasks', 1))))
     via = 'direct' if case.get('via') == 'direct' else 'pubsub'
-    run = _Run(res, n, via)
+    run = _Run(res, n, via, mutating=bool(case.get('mutating')))
 
     classes  = set()
     nt       = False
